@@ -312,7 +312,10 @@ class Tree:
         return out
 
 
-def setup(module, fam, L, I, timeout, is_set=False):
+MEMORY_ERROR = 0xE0080
+
+
+def setup(module, fam, L, I, timeout, is_set=False, fail_at=None):
     it, mem, obj, out, err = conv_setup(module, z3.IntVal(0), z3.BoolVal(True), timeout)
     g = mem.alloc(64, 'globals2')
     for i, (name, val) in enumerate((('PyExc_KeyError', KEY_ERROR), ('PyExc_ValueError', 0xE0040), ('PyExc_IndexError', 0xE0050),
@@ -408,7 +411,41 @@ def setup(module, fam, L, I, timeout, is_set=False):
     def set_object(itp, args, m_, cond):
         m_.store(err, 8, args[0])
 
+    # allocation-failure injection (C17): the fail_at-th call of malloc/realloc on a path returns NULL.  Every
+    # BTree_Malloc / BTree_Realloc makes exactly one such call, so this is the hook's countdown seen from the IR.
+    acnt = mem.alloc(16, 'alloc-counter')
+    mem.store(acnt, 8, llsym.bv(0, 64))
+    mem.store(acnt + 8, 8, llsym.bv(0, 64))
+
+    def refuse(m_):
+        c_ = T.c(m_.load(acnt, 8))
+        m_.store(acnt, 8, llsym.bv(c_ + 1, 64))
+        if fail_at is not None and c_ == fail_at:
+            m_.store(acnt + 8, 8, llsym.bv(1, 64))
+            return True
+        return False
+
+    def malloc(itp, args, m_, cond):
+        if refuse(m_):
+            return llsym.bv(0, 64)
+        return llsym.bv(m_.alloc(itp.conc(args[0]), 'heap'), 64)
+
+    def no_memory(itp, args, m_, cond):
+        m_.store(err, 8, llsym.bv(MEMORY_ERROR, 64))
+        return llsym.bv(0, 64)
+
+    def err_fetch(itp, args, m_, cond):
+        m_.store(itp.conc(args[0]), 8, m_.load(err, 8))
+        m_.store(itp.conc(args[1]), 8, llsym.bv(0, 64))
+        m_.store(itp.conc(args[2]), 8, llsym.bv(0, 64))
+        m_.store(err, 8, llsym.bv(0, 64))
+
+    def err_restore(itp, args, m_, cond):
+        m_.store(err, 8, args[0])
+
     def realloc(itp, args, m_, cond):
+        if refuse(m_):
+            return llsym.bv(0, 64)
         p_, sz = itp.conc(args[0]), itp.conc(args[1])
         new = m_.alloc(sz, 'heap')
         if p_:
@@ -420,8 +457,9 @@ def setup(module, fam, L, I, timeout, is_set=False):
         return llsym.bv(new, 64)
 
     it.externs.update(PyObject_CallObject=call_object, BTree_newBucket=new_bucket, _get_max_size=get_max_size,
-                      _Py_Dealloc=py_dealloc, PyErr_SetObject=set_object, realloc=realloc)
-    return it, mem, T, dict(obj=obj, out=out, err=err, log=log, slot=slot)
+                      _Py_Dealloc=py_dealloc, PyErr_SetObject=set_object, realloc=realloc, malloc=malloc, PyErr_NoMemory=no_memory,
+                      PyErr_Fetch=err_fetch, PyErr_Restore=err_restore)
+    return it, mem, T, dict(obj=obj, out=out, err=err, log=log, slot=slot, acnt=acnt)
 
 
 def _word_stubs(it, mem, L_, fam, aw, vw):
@@ -446,7 +484,7 @@ def _word_stubs(it, mem, L_, fam, aw, vw):
 FALLBACKS = [0]
 
 
-def _cases(s, op, is_set, ents, stored_ranks, keys, vals, aw, vw, ret, e, rank, ltk):
+def _cases(s, op, is_set, ents, stored_ranks, keys, vals, aw, vw, ret, e, rank, ltk, retchk=True):
     """the contents / return-code post-condition of one path as a list of z3 bools.  The compiled code moves words
     around without computing on them, so the final leaf entries are syntactically the pre-state's key/value terms and
     the argument terms: the expected sorted-map result is matched term by term and only the facts about the argument
@@ -459,20 +497,22 @@ def _cases(s, op, is_set, ents, stored_ranks, keys, vals, aw, vw, ret, e, rank, 
     def val_ok(i, want):
         v_ = ents[i][1]
         return True if (is_set or v_.get_id() == want.get_id()) else (v_ == want)
-    okret = [ret != llsym.bv(-1, 32), e == 0]
+    okret = [ret != llsym.bv(-1, 32), e == 0] if retchk else []
+    T_ = z3.BoolVal(True)
+    R0, R1, RM1, EK = ((ret == 0, ret != 0, ret == llsym.bv(-1, 32), e == llsym.bv(KEY_ERROR, 64)) if retchk else (T_, T_, T_, T_))
     if '?' not in kc:
         olds = list(stored_ranks)
         if op == 'delete':
             if kc == olds:                                  # nothing removed: the key must be absent, KeyError
                 vs = [val_ok(i, vals[r]) for i, r in enumerate(olds)]
                 if all(v_ is True for v_ in vs):
-                    return [z3.And(*[aw != keys[r] for r in olds]) if olds else z3.BoolVal(True), ret == llsym.bv(-1, 32), e == llsym.bv(KEY_ERROR, 64)]
+                    return [z3.And(*[aw != keys[r] for r in olds]) if olds else z3.BoolVal(True), RM1, EK]
             for i, r in enumerate(olds):
                 if kc == olds[:i] + olds[i + 1:]:
                     rest = olds[:i] + olds[i + 1:]
                     vs = [val_ok(j, vals[r2]) for j, r2 in enumerate(rest)]
                     if all(v_ is True for v_ in vs):
-                        return [aw == keys[r], ret != 0] + okret
+                        return [aw == keys[r], R1] + okret
         else:
             if kc == olds:                                  # no new entry: the key must be present
                 # which one?  the entry whose value term changed, else ask the model
@@ -481,16 +521,16 @@ def _cases(s, op, is_set, ents, stored_ranks, keys, vals, aw, vw, ret, e, rank, 
                     if cand:
                         i = cand[0]
                         if op == 'set':
-                            return [aw == keys[olds[i]], val_ok(i, vw) if val_ok(i, vw) is not True else z3.BoolVal(True), ret == 0] + okret
+                            return [aw == keys[olds[i]], val_ok(i, vw) if val_ok(i, vw) is not True else z3.BoolVal(True), R0] + okret
                     else:
                         # contents unchanged: present key and (insert-if-absent, a set, or the same value assigned again)
                         same = [z3.And(aw == keys[r], (vals[r] == vw) if (op == 'set' and not is_set) else True) for r in olds]
-                        return [z3.Or(*same) if same else z3.BoolVal(False), ret == 0] + okret
+                        return [z3.Or(*same) if same else z3.BoolVal(False), R0] + okret
             if kc.count('A') == 1 and [c_ for c_ in kc if c_ != 'A'] == olds:
                 p_ = kc.index('A')
                 vs = [val_ok(j, vals[c_]) for j, c_ in enumerate(kc) if c_ != 'A']
                 if all(v_ is True for v_ in vs):
-                    out = [ret != 0] + okret
+                    out = [R1] + okret
                     if p_ > 0:
                         out.append(ltk(keys[kc[p_ - 1]], aw))
                     if p_ < nE - 1:
@@ -507,21 +547,21 @@ def _cases(s, op, is_set, ents, stored_ranks, keys, vals, aw, vw, ret, e, rank, 
     def has(k_, v_):
         return z3.Or(*[z3.And(ek == k_, (ev == v_) if not is_set else True) for ek, ev in ents]) if ents else z3.BoolVal(False)
     olds = lambda skip=None: [has(keys[r], vals[r]) for r in stored_ranks if r != skip]
-    okr = z3.And(*okret)
+    okr = z3.And(*okret) if okret else T_
     cases = []
     if op == 'delete':
         for r in stored_ranks:
-            cases.append(z3.Implies(found[r], z3.And(okr, ret != 0, z3.BoolVal(nE == n0 - 1), *olds(r))))
-        cases.append(z3.Implies(z3.Not(anyf), z3.And(ret == llsym.bv(-1, 32), e == llsym.bv(KEY_ERROR, 64), z3.BoolVal(nE == n0), *olds())))
+            cases.append(z3.Implies(found[r], z3.And(okr, R1, z3.BoolVal(nE == n0 - 1), *olds(r))))
+        cases.append(z3.Implies(z3.Not(anyf), z3.And(RM1, EK, z3.BoolVal(nE == n0), *olds())))
     else:
         for r in stored_ranks:
             newv = vw if (op == 'set' and not is_set) else vals[r]
-            cases.append(z3.Implies(found[r], z3.And(okr, ret == 0, z3.BoolVal(nE == n0), has(keys[r], newv), *olds(r))))
-        cases.append(z3.Implies(z3.Not(anyf), z3.And(okr, ret != 0, z3.BoolVal(nE == n0 + 1), has(aw, vw), *olds())))
+            cases.append(z3.Implies(found[r], z3.And(okr, R0, z3.BoolVal(nE == n0), has(keys[r], newv), *olds(r))))
+        cases.append(z3.Implies(z3.Not(anyf), z3.And(okr, R1, z3.BoolVal(nE == n0 + 1), has(aw, vw), *olds())))
     return cases
 
 
-def run_tree_set(ob, scratch):
+def _run_tree_set(ob, scratch, fail_at=None):
     from engine import shapes as shp
     t0 = time.time()
     P = ob['params']
@@ -540,7 +580,7 @@ def run_tree_set(ob, scratch):
     pre = [ltk(keys[i], keys[i + 1]) for i in range(m - 1)]
     try:
         module = build_conv(fam, scratch)
-        it, mem, T, L_ = setup(module, fam, L, I, ob.get('timeout', 300), is_set)
+        it, mem, T, L_ = setup(module, fam, L, I, ob.get('timeout', 300), is_set, fail_at=fail_at)
         it.budget = 600000
         vobj = _word_stubs(it, mem, L_, fam, aw, vw)
         root = T.build(mem, tpl, keys, vals, spare=spare, stored=stored)
@@ -559,7 +599,7 @@ def run_tree_set(ob, scratch):
     rank = {keys[r].get_id(): r for r in range(m)}
     s = z3.Solver()
     s.add(*pre)
-    q, ts, cex, detail, reached = 0, 0.0, None, None, 0
+    q, ts, cex, detail, reached, fired_paths = 0, 0.0, None, None, 0, 0
     for o in outs:
         s.push()
         s.add(*o.cond)
@@ -581,8 +621,11 @@ def run_tree_set(ob, scratch):
             s.pop()
             continue
         reached += 1
+        fired = fail_at is not None and T.c(o.mem.load(L_['acnt'] + 8, 8)) == 1
+        fired_paths += 1 if fired else 0
         try:
-            w = T.walk(o.mem, L, I, rank)
+            # after a refused allocation a leaf may legitimately hold one key too many (insert done, split refused)
+            w = T.walk(o.mem, None if fired else L, None if fired else I, rank)
             chg = T.changed_terms(o.mem, w['nodes'])
         except llsym.MemError as me:
             cex, detail = s.model(), 'the tree references memory it does not own: %s' % me
@@ -603,7 +646,15 @@ def run_tree_set(ob, scratch):
         n0 = len(stored_ranks)
         e = o.mem.load(L_['err'], 8)
         ret = o.ret
-        cases = _cases(s, op, is_set, ents, stored_ranks, keys, vals, aw, vw, ret, e, rank, ltk)
+        if fired:
+            # MemoryError reported; contents are the previous ones or the completed change
+            unchanged = [k_.get_id() for k_, _ in ents] == [keys[r].get_id() for r in stored_ranks] and \
+                (is_set or [v_.get_id() for _, v_ in ents] == [vals[r].get_id() for r in stored_ranks])
+            cases = [ret == llsym.bv(-1, 32), e == llsym.bv(MEMORY_ERROR, 64)]
+            if not unchanged:
+                cases += _cases(s, op, is_set, ents, stored_ranks, keys, vals, aw, vw, ret, e, rank, ltk, retchk=False)
+        else:
+            cases = _cases(s, op, is_set, ents, stored_ranks, keys, vals, aw, vw, ret, e, rank, ltk)
         # C04: a node whose serialised state differs must have been announced (an oid-less leaf under a one-child
         # root is serialised inside the root: then the root must be announced)
         notif = []
@@ -654,5 +705,35 @@ def run_tree_set(ob, scratch):
         verdict = 'confirmed'
     res.update(verdict=verdict, detail=detail, cex=cex, paths=len(outs), solver_queries=it.stats['queries'] + q,
                solver_s=round(it.stats['solver_s'] + ts, 3), wall_s=round(time.time() - t0, 2), twin_refuted=reached > 0,
-               instr=it.stats['instr'], witness={'returning_paths': reached, 'generic_postconditions': FALLBACKS[0]})
+               instr=it.stats['instr'], witness={'returning_paths': reached, 'generic_postconditions': FALLBACKS[0]}, fired_paths=fired_paths)
     return res
+
+
+def run_tree_set(ob, scratch):
+    """one call of _BTree_set; with params['oom'] the call is repeated with the n-th allocation refused, n = 0, 1, ...
+    until no path reaches an n-th allocation any more (C17)"""
+    if not ob['params'].get('oom'):
+        return _run_tree_set(ob, scratch)
+    tot = None
+    for n in range(0, 24):
+        r = _run_tree_set(ob, scratch, fail_at=n)
+        if tot is None:
+            tot = dict(r)
+        else:
+            for k_ in ('paths', 'solver_queries', 'solver_s', 'wall_s', 'instr'):
+                tot[k_] = round(tot.get(k_, 0) + r.get(k_, 0), 3)
+        if r['verdict'] != 'confirmed':
+            cx = r.get('cex')
+            if isinstance(cx, dict):
+                cx = dict(cx, fa=n)
+            tot.update(verdict=r['verdict'], cex=cx, detail='with allocation #%d of the call refused: %s' % (n, r.get('detail')))
+            tot['names'] = list(r.get('names', [])) + ['fa']
+            return tot
+        if not r.get('fired_paths'):
+            tot['witness'] = dict(r.get('witness') or {}, allocations_refused_in_turn=n)
+            tot['twin_refuted'] = n > 0
+            if n == 0:
+                tot.update(verdict='inconclusive', detail='vacuous: the call never allocates')
+            return tot
+    tot.update(verdict='inconclusive', detail='more than 24 allocations on a path')
+    return tot
